@@ -422,6 +422,11 @@ theorem side_current {avoid : List Name} {ps : List Param}
 theorem side_fixed (avoid : List Name) (ps : List Param) : Side Cfg.fixed avoid ps :=
   ⟨Or.inl rfl, Or.inl rfl⟩
 
+/-- … for every model variant in which the two naming defects are repaired (whatever the other flags) -/
+theorem side_of_flags {cfg : Cfg} (hu : cfg.unnamedFixed = true) (hs : cfg.shadowFixed = true)
+    (avoid : List Name) (ps : List Param) : Side cfg avoid ps :=
+  ⟨Or.inl hu, Or.inl hs⟩
+
 theorem effParams_namesOk (cfg : Cfg) {pre : Name} {avoid : List Name} (hpre : 1 ≤ pre.length)
     (hav : ∀ n ∈ avoid, n.length ≤ pre.length) (ps : List Param) (hv : ValidSig ps)
     (hs : Side cfg avoid ps) : NamesOk avoid (effParams cfg avoid pre ps) := by
